@@ -495,8 +495,8 @@ def mesh_configs(models, quick):
         mults = [None]
         if ctl is not None:
             top = len(ctl.choices) if ctl.choices else int(ctl.limits[1])
-            lo = 0 if ctl.choices else max(1, int(ctl.limits[0]))
-            mults = [min(2, top)] if quick else sorted(set([lo, min(3, top), top]))
+            lo = 0 if ctl.choices else max(0, int(ctl.limits[0]))      # 0 is a legal multiplicity for some models
+            mults = sorted(set([lo, min(2, top)])) if quick else sorted(set([lo, min(3, top), top]))
         for mult in mults:
             vis = set(visible_names(info, mult)[0])
             pd1 = [p.name for p in P.call_parameters if p.name in P.pd_1d and p.name in vis]
@@ -1209,7 +1209,7 @@ def run(chk):
         "normally is a counterexample.  Every counterexample is replayed on the real compiled kernels / real "
         "interfaces with floats and strings.")
     chk.bounds = {"models": "all %d builtin models (core.list_models())" % len(core.list_models()),
-                  "multiplicity": "2" if chk.quick else "lowest, 3, highest",
+                  "multiplicity": "lowest (incl. 0 where legal), 2" if chk.quick else "lowest, 3, highest",
                   "dispersed parameters per unit": "<= 2 (+ 1 orientation), npts in %s, types cycled over %s; %s"
                                                    % ("{5,0}" if chk.quick else "{5,1,0}", PD_TYPES,
                                                       "first pair of size parameters" if chk.quick else "every size parameter"),
